@@ -495,9 +495,52 @@ func analyseImmutableFields(as AnalysisSpec, progs []*Program, cs *Contracts, fu
 		keys = append(keys, k)
 	}
 	sort.Strings(keys)
+	// list entries "pkg.T.field:pkg.T.Setup": Setup may also store the field, provided nothing in the
+	// loaded packages calls Setup (it is an entry point that runs before the methods relying on the
+	// field's stability, never during them).
+	allowed := map[string]string{}
+	for _, l := range as.List {
+		if i := strings.Index(l, ":"); i > 0 {
+			allowed[l[:i]] = l[i+1:]
+		}
+	}
 	for _, key := range keys {
+		if pf := as.Args["prefix"]; pf != "" && !strings.HasPrefix(key, pf) {
+			continue
+		}
 		i := strings.LastIndex(key, ".")
 		skey, field := key[:i], key[i+1:]
+		if setup := allowed[key]; setup != "" {
+			so := &OblResult{Name: "module/immutable-setup:" + key, Kind: "immutable-field", Func: setup, Backend: "ssa-walker", Result: "discharged", Desc: "the one method allowed to set the field after construction is an entry point: nothing in the loaded packages calls it"}
+			seen := false
+			for _, p := range progs {
+				for _, fn := range p.All {
+					if p.FuncKey(fn) == setup {
+						seen = true
+					}
+					for _, b := range fn.Blocks {
+						for _, in := range b.Instrs {
+							ci, ok := in.(ssa.CallInstruction)
+							if !ok {
+								continue
+							}
+							if cal := ci.Common().StaticCallee(); cal != nil && p.FuncKey(cal) == setup {
+								so.Result, so.Why = "failed", setup+" is called from "+p.FuncKey(fn)+" at "+p.Pos(in.Pos())
+							}
+							for _, a := range ci.Common().Args {
+								if f, ok := a.(*ssa.Function); ok && p.FuncKey(f) == setup {
+									so.Result, so.Why = "failed", setup+" is passed as a value in "+p.FuncKey(fn)
+								}
+							}
+						}
+					}
+				}
+			}
+			if !seen {
+				so.Result, so.Why = "failed", "setup method "+setup+" not found"
+			}
+			ar.Obls = append(ar.Obls, so)
+		}
 		o := &OblResult{Name: "module/immutable:" + key, Kind: "immutable-field", Func: key, Backend: "ssa-walker", Result: "discharged", Desc: "field is written only during construction of its object"}
 		found := false
 		for _, p := range progs {
@@ -523,7 +566,7 @@ func analyseImmutableFields(as AnalysisSpec, progs []*Program, cs *Contracts, fu
 									o.Result, o.Why = "failed", "address of the field is stored at "+p.Pos(x.Pos())
 									continue
 								}
-								if _, isAlloc := fa.X.(*ssa.Alloc); !isAlloc {
+								if _, isAlloc := fa.X.(*ssa.Alloc); !isAlloc && p.FuncKey(fn) != allowed[key] {
 									o.Result, o.Why = "failed", "field written after construction at "+p.Pos(x.Pos())+" in "+p.FuncKey(fn)
 								}
 							case *ssa.UnOp, *ssa.DebugRef:
@@ -1249,9 +1292,14 @@ func analysePerIteration(as AnalysisSpec, progs []*Program, cs *Contracts, funcs
 	}
 	zero := parse(as.Args["zero_when"])
 	also := parse(as.Args["one_also"])
+	iterCond := parse(as.Args["iter_cond"]) // must hold at the end of every iteration (may use iterstart())
 	for _, key := range as.Functions {
 		fr := findFunc(funcs, key)
-		o := &OblResult{Name: key + "/per-iteration:" + callee, Kind: "per-iteration", Func: key, Desc: "each loop iteration performs " + kind + " " + callee + " exactly once" + map[bool]string{true: " unless " + as.Args["zero_when"], false: ""}[len(zero) > 0], Result: "discharged", Backend: "ssa-walker"}
+		label := callee
+		if as.Args["label"] != "" {
+			label = as.Args["label"]
+		}
+		o := &OblResult{Name: key + "/per-iteration:" + label, Kind: "per-iteration", Func: key, Desc: "each loop iteration performs " + kind + " " + callee + " exactly once" + map[bool]string{true: " unless " + as.Args["zero_when"], false: ""}[len(zero) > 0], Result: "discharged", Backend: "ssa-walker"}
 		ar.Obls = append(ar.Obls, o)
 		if fr == nil || fr.Unsupported != "" {
 			o.Result, o.Why = "undecided", "function not verified"
@@ -1259,6 +1307,10 @@ func analysePerIteration(as AnalysisSpec, progs []*Program, cs *Contracts, funcs
 		}
 		e := fr.Engine
 		iters := 0
+		wantN := 1
+		if c := as.Args["count"]; c != "" {
+			wantN, _ = strconv.Atoi(c)
+		}
 		check := func(pe *PathEnd, goal, what string) {
 			q := &Query{Lines: pe.S.Lines, Goal: goal}
 			sr := Solve(work, fmt.Sprintf("%s.periter.%d", key, pe.S.PathID), e.assemble(q, true), timeout, "")
@@ -1286,6 +1338,9 @@ func analysePerIteration(as AnalysisSpec, progs []*Program, cs *Contracts, funcs
 			if start < 0 {
 				continue
 			}
+			if lsel := as.Args["loop"]; lsel != "" && pe.S.Trace[start].What != lsel {
+				continue // an iteration of another loop of the function
+			}
 			iters++
 			n := 0
 			for _, ev := range pe.S.Trace[start:] {
@@ -1293,7 +1348,33 @@ func analysePerIteration(as AnalysisSpec, progs []*Program, cs *Contracts, funcs
 					n++
 				}
 			}
+			if wantN > 1 {
+				// a fixed number of calls per iteration: all of them or (when zero_when allows) none
+				if n != wantN && n != 0 {
+					o.Result, o.Why = "failed", fmt.Sprintf("an iteration performs %s %d times instead of %d", callee, n, wantN)
+				}
+				if n == wantN {
+					n = 1
+				}
+			}
 			ctx := e.specCtx(pe.S, fr.Fn)
+			for _, cl := range iterCond {
+				if cl.Expr == nil {
+					o.Result, o.Why = "failed", cl.Text
+					continue
+				}
+				func() {
+					defer func() {
+						if r := recover(); r != nil {
+							o.Result, o.Why = "failed", fmt.Sprint("cannot evaluate ", cl.Text, ": ", r)
+						}
+					}()
+					check(pe, e.evalBool(pe.S, ctx, cl.Expr), "at the end of an iteration "+cl.Text+" does not hold")
+				}()
+			}
+			if callee == "" {
+				continue
+			}
 			evalAny := func(cls []Clause) string {
 				var alts []string
 				for _, cl := range cls {
